@@ -19,7 +19,13 @@ RULE = ("certificates: every public function (31 one-argument + pow/powf/log/pol
         "kernel-checked Interval certificate per component of the implementation's answer against the R-model "
         "(tol 1e-9*max(1,|v|)); points exactly on a cut of the function are excluded from value comparison. "
         "search cases: cf.all / cf.seq / cf.powid / cf.polar* lines on the structured set plus seeded random dyadic points, "
-        "compared with mpmath at 50 digits and with each other (round trips, reciprocals, Pythagorean, principal ranges); "
+        "compared with mpmath at 50 digits and with each other (round trips, reciprocals, Pythagorean, principal ranges); the "
+        "structured set also holds z = +-1, +-i and both ends of the range of moduli (|z| = 10, |z| = 33/32768) on the axes and in "
+        "every quadrant (certified too); search-only special-structure families (special_cases): |z| = 1 off the axes; the zeros and "
+        "poles fl(k pi/2), k = +-1..+-6, of the direct functions on both axes, exactly and displaced by 2^-20 / 2^-30 along and by "
+        "2^-20, 1/2 across the axis; exponents 0, +-1, +-2, +-3, +-1/2, 3/2, +-i, 1+-i, 2i, 2+2^-20 i on unit, negative/positive real, "
+        "quadrant and cut points, and z^z; log bases -1, +-i, 2, 1/2, 10, e, 0.6+0.8i, -2, 1+2^-10, 1+2^-10 i, -3-4i incl. z = b; "
+        "polar at theta = 0, +-fl(pi/2), +-fl(pi), pi/4, -3pi/4, +-2^-30, +-(pi-2^-20) and r = 33/32768 .. 10 in both directions; "
         "distinct = distinct executor line; non-trivial = every case (no empty inputs exist for this property)")
 TRUSTED = ["Coq 8.16.1 kernel + vm_compute (inside Interval 4.6.1: kernel-checked enclosures of exp/ln/sin/cos/atan/sqrt)",
            "Rust executor /verif/harness (cf.* kinds call the public Complex<f64> methods only)",
@@ -45,7 +51,10 @@ MANIFEST = dict(
           "to 0,+-1,+-i, both sides of every cut at distances 2^-10, 2^-20, 2^-30) each component returned by the Rust code is proved "
           "to lie within 1e-9*max(1,|v|) of the model's real value (about 1 300 certificates quick, 10 500 thorough; the constant "
           "PI_2 is certified against PI/2). Search: mpmath at 50 digits and the identities themselves on the structured set plus "
-          "seeded random points (8 000 cases quick, 49 000 thorough)."),
+          "seeded random points (8 800 cases quick, 53 000 thorough), including special-structure families: z = +-1, +-i and unit modulus "
+          "off the axes, both ends of the range of moduli, the zeros and poles k pi/2 of the direct functions on both axes (exactly and "
+          "2^-20 / 2^-30 next to them), structured exponents (0, +-1, +-2, +-3, +-1/2, +-i, ...) on unit / negative real / cut points, "
+          "structured log bases (-1, +-i, 2, 10, e, unit modulus, next to 1) and polar angles 0, +-fl(pi/2), +-fl(pi)."),
     note=("libm accuracy and f64 rounding are certified pointwise (tie) and searched, not proved; points exactly on a cut are excluded "
           "from value comparison (the code follows the sign of its computed zero, the R-model has no signed zero); agreement with "
           "the defining power series is proved for exp, sin, cos, sinh, cosh over all of C."),
@@ -127,6 +136,57 @@ def generate(rng, tier):
         r = round((10 ** (-3 + 4 * g.unit())) * 1024 + 2) / 1024.0
         t = g.range(-3216, 3216) / 1024.0            # |t| < pi
         cases.append(mk_polarinv(r, t, "polar"))
+    if SPECIAL:
+        cases += special_cases(rng.fork("special"), tier)
+    return cases
+
+SPECIAL = True         # the special-structure families (special-values audit); search only
+
+def special_cases(g, tier):
+    """unit modulus, zeros/poles of the direct functions, structured exponents and bases, structured polar arguments"""
+    cases = []
+    thorough = tier == "thorough"
+    sp = [(c, fl(x), fl(y)) for (c, x, y) in structured_points()]
+    # ---- |z| = 1 off the axes (the axis points +-1, +-i are in the structured set, category `unit`)
+    for z in unit_off_axis():
+        cases.append(mk_all(z, "special:unit-modulus"))
+        cases += mk_rt(z, "special:unit-modulus")
+        cases.append(mk_polar(z, "special:unit-modulus"))
+    # ---- zeros and poles of the direct functions on both axes
+    for (c, x, y) in zero_pole_points(g.fork("zp"), thorough):
+        cases.append(mk_all((x, y), "special:" + c))
+        if c == "zp-exact" and (thorough or g.chance(1, 4)):
+            cases += mk_rt((x, y), "special:" + c)
+            cases.append(mk_polar((x, y), "special:" + c))
+    # ---- structured exponents: every one on the unit points, the real axis on both sides of 0, one point per quadrant,
+    #      the ends of the range; z^z as well (base and exponent the same number)
+    h = g.fork("pow")
+    axis = [(x, y) for (c, x, y) in sp if c in ("axis+x", "axis-x")]
+    quads = {q: [(x, y) for (c, x, y) in sp if c == q] for q in ("q1", "q2", "q3", "q4")}
+    other = [(x, y) for (c, x, y) in sp if c in ("axis+y", "axis-y", "end", "bp0") or c.startswith(("bp-1", "cut-real"))]
+    for w in SPECIAL_W:
+        zs = UNIT_AXIS + [(0.6, 0.8), (-0.8, 0.6)]
+        if thorough: zs = zs + axis + [z for q in quads.values() for z in q] + other
+        else:
+            zs = zs + h.shuffle([z for z in axis if z[0] < 0])[:2] + h.shuffle([z for z in axis if z[0] > 0])[:1] \
+                    + [h.choice(quads[h.choice(["q1", "q2", "q3", "q4"])]), h.choice(other)]
+        for z in zs:
+            cases.append(mk_pow(z, w, "special:exponents"))
+    for z in UNIT_AXIS + unit_off_axis() + [z for z in axis if abs(z[0]) <= 3] + ([z for q in quads.values() for z in q if math.hypot(*z) <= 3] if thorough else []):
+        cases.append(mk_pow(z, z, "special:exponents"))
+    # ---- structured bases of log, with z = b (log_b b = 1), z = 1/b-like and ordinary z
+    h = g.fork("log")
+    for b in LOG_BASES:
+        zs = [b, (b[0], -b[1]), (-b[0], b[1])] + UNIT_AXIS[1:] + [h.choice(quads[q]) for q in (("q1", "q2", "q3", "q4") if thorough else (h.choice(["q1", "q2"]), h.choice(["q3", "q4"])))]
+        for z in zs:
+            if 1e-3 <= math.hypot(*z) <= 10:
+                cases.append(mk_single("log", [['c', list(z)], ['c', list(b)]], "special:log-bases"))
+    # ---- structured polar arguments: both directions
+    h = g.fork("polar")
+    for t in POLAR_T:
+        for r in (POLAR_R if thorough else [1.0] + h.shuffle([r for r in POLAR_R if r != 1.0])[:2]):
+            cases.append(mk_polarinv(r, t, "special:polar"))
+            cases.append(mk_single("polar", [['r', r], ['r', t]], "special:polar"))
     return cases
 
 def mk_single(name, args, fam):
@@ -304,6 +364,7 @@ def cert_points(rng, tier):
         for c in ("q1", "q2", "q3", "q4"): chosen += take(c, 1)                     # every quadrant
         if heavy: chosen += take(g.choice(["q1", "q2", "q3", "q4"]), 2)[:1]         # functions with cuts: one more
         for c in ("axis+x", "axis-x", "axis+y", "axis-y", "bp0"): chosen += take(c, 1)
+        chosen += take("unit", 1) + take("end", 1)                                    # |z| = 1 on an axis; an end of the range of moduli
         for c in ("bp+1", "bp-1", "bp+i", "bp-i"): chosen += take("%s@%d" % (c, g.choice(BP_SCALES)), 1)
         # both sides of the axis that carries the function's cuts, at every distance 2^-10, 2^-20, 2^-30 (same abscissa on
         # both sides); one pair next to the other axis
